@@ -1,13 +1,17 @@
 import OdlModel.Common
 import OdlModel.Model.Functionals
 import OdlModel.Model.FunctionalsWire
+import OdlModel.Model.FunctionalsProx
 open OdlModel OdlModel.Functionals
 
 /-- `val f=<expr> w=<weights> x=<vec>`        → `ok v=<rat|inf|noeval>`          (f(x))
     `conjval f=… w=… x=…`                    → `ok v=…` | `noconj`               (f.convex_conj(x))
     `biconjval f=… w=… x=…`                  → `ok v=…` | `noconj`               (f.convex_conj.convex_conj(x))
     `conjskel f=… w=… x=…`                   → `ok s=<class skeleton of f.convex_conj>` | `noconj`
-    `fy f=… w=… x=… y=…`                     → `ok fx=… gy=… xy=…` | `noconj`    (Fenchel–Young triple) -/
+    `fy f=… w=… x=… y=…`                     → `ok fx=… gy=… xy=…` | `noconj`    (Fenchel–Young triple)
+    `moreau f=… w=… x=… sigma=… lamf=…`      → `ok p1=… p2=… lhs=…` | `noconj` | `noprox1` | `noprox2`
+        (p1 = f.proximal(σ)(x), p2 = f.convex_conj.proximal(1/σ)(x/σ), lhs = p1 + σ p2;
+         lamf = the fudged radius of proximal_convex_conj_l1) -/
 def handle (l : Line) : Option String := do
   let (o, f, n) ← parseCase l true
   let x ← vecArg l "x" n
@@ -33,6 +37,17 @@ def handle (l : Line) : Option String := do
       match f.conj o with
       | none => some "noconj"
       | some g => some s!"ok fx={showValue o f x} gy={showValue o g y} xy={showRat (o.inner x y)}"
+  | "moreau" => do
+      let σ ← l.rat? "sigma"
+      let lamF ← l.rat? "lamf"
+      if σ ≤ 0 then none
+      let E : OdlModel.Prox.Env Rat := { sqrt := ratSqrt, eps := 0 }
+      match moreauPair E lamF (← l.rats? "w") f σ x with
+      | .noconj => some "noconj"
+      | .noprox1 => some "noprox1"
+      | .noprox2 => some "noprox2"
+      | .ok p1 p2 lhs =>
+          some s!"ok p1={showRatList p1} p2={showRatList p2} lhs={showRatList lhs}"
   | _ => none
 
 def main : IO Unit := driverLoop handle
